@@ -12,6 +12,12 @@
 3. code -> spec: realistic headers, a language-fallback family and seeded random headers are run
    through parse_accept_header / Request.accept_* and the four classes; AcceptTrace.tla (TLC)
    parses the header text itself and judges order, every quality(offer) and best_match.
+4. growth: AcceptWide.tla widens the judge's parser to quoted-string parameter values, OWS, empty elements
+   and the undecided q / parameter forms (every treatment accepted; MCWide.tla model-checks the parser),
+   the codings family (Accept-Encoding, identity / '*'), LanguageAccept / CharsetAccept with separators,
+   letter case and aliases varied on both sides, lookups / MIME helpers / to_header round trip (drift only),
+   and the Accept calls of the repository's own tests recorded by harness/pytest_accept_plugin.py.
+   Keys of these parts start with Wide.., Coding.., RepoTests...
 """
 from __future__ import annotations
 
@@ -81,6 +87,9 @@ def run(ctx: Ctx):
         "offers: non-empty lists of valid offers (MIME: type/subtype[;params], wildcards only as a/* or */*)",
         "MIME matching: equal type/subtype and equal parameter bags, wildcards on either side (the documented MIMEAccept rule)",
         "charset aliases: the python codec registry classes utf-8 / iso8859-1 / ascii, all other names compared case-insensitively",
+        "wider domain (AcceptWide.tla): quoted-string parameter values, OWS around ',' ';', empty elements / segments, Q=; undecided forms "
+        "(q '1.', > 3 decimals, leading zeros, '-0', duplicate q, white space around '=', 'q=' empty, quoted q, parameters after q) are "
+        "accepted under every treatment (drift only); backslash escapes and duplicate non-q parameter names are outside",
         "LanguageAccept: exact stage, then the ranges' primary tags, then the offers' primary tags; an offer that a range matches "
         "exactly with q=0 is never chosen by a fallback (property: 'an offer whose best range has q=0 ... is never chosen')",
     ]
@@ -107,13 +116,117 @@ def run(ctx: Ctx):
     rng = random.Random(ctx.seed)
     for _ in range(5000 if q else 150000):
         cases.append(ac.random_case(rng, rng.choice(ac.FAMS)))
+    cases += ac.both_sides_cases(random.Random(ctx.seed + 3), 1200 if q else 40000)
     ctx.notes["cases_by_family"] = {f: sum(1 for c in cases if c[0] == f) for f in ac.FAMS}
     judge_cases(ctx, cases)
+    # 4. growth: wider header domain (quoted strings, OWS, empty elements, undecided q forms), codings,
+    #    lookups / helpers / to_header round trip (drift), the repository's own tests
+    ctx.model_check(AREA, "MCWide", "MCQ_wide", timeout=600)
+    ctx.model_check(AREA, "MCWide", "MCQ_wide2", timeout=600)
+    if not q:
+        ctx.model_check(AREA, "MCWide", "MCT_wide2", timeout=3000)
+    ctx.notes["wide_forms"] = judge_wide(ctx, wide_cases(ctx))
+    repo_tests(ctx)
+
+
+def judge_wide(ctx: Ctx, cases, kind="c17w"):
+    """cases: (fam, api, hdr, offers, prefix, tags) -> AcceptWideTrace.tla (wider header domain, codings)."""
+    recs = pmap(ac.negotiate_wide_all, [cases[i:i + 100] for i in range(0, len(cases), 100)], workers=ctx.workers, chunksize=1)
+    lines = [r for chunk in recs for r in chunk]
+    for t, ln in enumerate(lines):
+        ln["t"], ln["i"] = t, 0
+    ctx.count(len(lines))
+    tags = {}
+    for k, c in enumerate(cases):
+        for tg in c[5]:
+            tags[tg] = tags.get(tg, 0) + 1
+        if c[5] or c[4] == "Coding":
+            ctx.nontrivial.add((c[0], c[2], tuple(c[3])))
+        if k % 499 == 1:
+            ln = lines[k]
+            ctx.sample({"family": c[0], "api": c[1], "header": c[2], "offers": c[3], "forms": c[5],
+                        "best_match": None if ln["none"] else _text(ln["best"]), "order": [[_text(o["v"]), o["q"]] for o in ln["order"]]})
+    for r in ctx.judge(AREA, "AcceptWideTrace", lines, batch=600):
+        c, ln = cases[r["t"]], lines[r["t"]]
+        if r["clause"] == "OutOfDomain" and ln["rt"]:
+            # the judged text is the code's own to_header() output: outside the domain -> skipped and counted
+            tags["roundtrip text outside the domain (skipped)"] = tags.get("roundtrip text outside the domain (skipped)", 0) + 1
+            continue
+        if r["clause"] == "OutOfDomain":
+            raise MachineryError(f"driver produced a case outside the wide domain: {c!r}")
+        case = {"fam": c[0], "api": c[1], "hdr": c[2], "offers": list(c[3]), "pre": c[4], "forms": list(c[5]),
+                "observed": {"best": None if ln["none"] else _text(ln["best"]), "quals": ln["quals"],
+                             "order": [[_text(o["v"]), o["q"]] for o in ln["order"]], "exc": ln["exc"]}}
+        ctx.violation(f"{c[4]}{r['clause']}:{c[0]}", c[4] + r["clause"], case, kind=kind)
+    return tags
+
+
+def wide_cases(ctx: Ctx):
+    rng = random.Random(ctx.seed + 17)
+    cases = [(f, api, h, o, "Wide", ["fixed"]) for f, h, o in ac.WIDE_FIXED for api in ("class", "request", "roundtrip")]
+    for _ in range(1500 if ctx.quick else 60000):
+        cases.append(ac.random_wide_case(rng, rng.choice(ac.FAMS)))
+    cases += ac.coding_cases(rng, 300 if ctx.quick else 20000)
+    return cases
+
+
+REPO_TEST_FILES = ("tests/test_http.py", "tests/test_datastructures.py", "tests/test_wrappers.py")
+
+
+def repo_tests(ctx: Ctx, min_calls=40):
+    """Record the Accept calls of the repository's own tests (harness/pytest_accept_plugin.py, test process
+    only) and judge them with AcceptWideTrace.tla; what is outside the judged domain is skipped and counted."""
+    import json
+    import os
+    import subprocess
+    import sys
+
+    from ..core import REPO, VERIF
+
+    out = os.path.join(ctx.tmp, "repo-accept-calls.json")
+    env = dict(os.environ, VERIF_TRACE_OUT=out, PYTHONPATH=VERIF + os.pathsep + os.path.join(REPO, "src"), PYTHONDONTWRITEBYTECODE="1")
+    p = subprocess.run([sys.executable, "-m", "pytest", "-q", "-p", "no:cacheprovider", "-p", "harness.pytest_accept_plugin",
+                        "--no-header", "-n", "0", *REPO_TEST_FILES], cwd=REPO, env=env, capture_output=True, text=True, timeout=900)
+    if not os.path.exists(out):
+        raise MachineryError("recording the repository's tests produced no trace file:\n" + (p.stdout + p.stderr)[-1500:])
+    data = json.load(open(out))
+    lines = data["lines"]
+    for t, ln in enumerate(lines):
+        ln["t"], ln["i"] = t, 0
+    skipped = dict(data["skipped"])
+    judged = len(lines)
+    for r in ctx.judge(AREA, "AcceptWideTrace", lines, batch=600):
+        ln = lines[r["t"]]
+        if r["clause"] == "OutOfDomain":
+            skipped["outside the judged domain"] = skipped.get("outside the judged domain", 0) + 1
+            judged -= 1
+            continue
+        case = {"fam": ln["fam"], "api": ln["api"], "test": ln.get("test", ""), "line": ln}
+        ctx.violation(f"RepoTests{r['clause']}:{ln['fam']}", "RepoTests" + r["clause"], case, kind="c17repo")
+    ctx.count(judged)
+    ctx.notes["repo_tests"] = {"files": list(REPO_TEST_FILES), "calls_recorded": len(lines), "calls_judged": judged,
+                               "skipped_by_reason": skipped, "pytest_tail": (p.stdout + p.stderr).strip().splitlines()[-1:]}
+    if judged < min_calls:
+        raise MachineryError(f"only {judged} Accept calls of the repository's tests were judged: {ctx.notes['repo_tests']}")
 
 
 def replay(ctx: Ctx, data):
     c = data["case"]
     ac.selfcheck()
+    if data.get("kind") == "c17w":
+        ctx.sample(c)
+        judge_wide(ctx, [(c["fam"], c["api"], c["hdr"], list(c["offers"]), c["pre"], c.get("forms", []))])
+        ctx.nontrivial.update({("replay", 0), ("replay", 1)})
+        return
+    if data.get("kind") == "c17repo":
+        ctx.sample({k: v for k, v in c.items() if k != "line"})
+        ln = dict(c["line"], t=0, i=0)
+        for r in ctx.judge(AREA, "AcceptWideTrace", [ln]):
+            if r["clause"] != "OutOfDomain":
+                ctx.violation(f"RepoTests{r['clause']}:{ln['fam']}", "RepoTests" + r["clause"], c, kind="c17repo")
+        ctx.count(1)
+        ctx.nontrivial.update({("replay", 0), ("replay", 1)})
+        return
     case = (c["fam"], c["api"], c["hdr"], list(c["offers"]))
     ctx.sample(c)
     judge_cases(ctx, [case], kind=data.get("kind", "c17"))
